@@ -428,6 +428,40 @@ pub fn edited_suite(rng: &mut Pcg64Mcg, count: usize, max_steps: u64, oor: bool)
     runs
 }
 
+/// Lennard-Jones states one clamped move away from a special position on which two copies
+/// coincide (the pair energy is not finite there).
+pub fn special_suite(rng: &mut Pcg64Mcg, count: usize) -> Vec<Run> {
+    let mut runs = vec![];
+    for k in 0..count {
+        let gname = ["p2", "p2mm", "p1m1", "p2mg", "p2gg"][k % 5];
+        let g = group(gname);
+        let st = match PotentialState::from_group(LJShape2::circle(), &g) {
+            Ok(s) => s,
+            Err(_) => continue,
+        };
+        let mut j = serde_json::to_value(&st).unwrap();
+        let site = &mut j["occupied_sites"][0];
+        site["x"] = serde_json::json!(pick(rng, &[0.49, -0.49, 0.5, 0.3]));
+        site["y"] = serde_json::json!(pick(rng, &[0.5, -0.5, 0.47]));
+        j["cell"]["length"] = serde_json::json!(pick(rng, &[3.0, 4.0, 6.0]));
+        let st2: PotentialState<LJShape2> = match serde_json::from_value(j) {
+            Ok(s) => s,
+            Err(_) => continue,
+        };
+        match st2.score() {
+            Some(s) if s.is_finite() => {}
+            _ => continue,
+        }
+        let mut req = random_req(rng, 250);
+        req.steps = pick(rng, &[60u64, 100, 250]);
+        req.max_step = pick(rng, &[0.5, 1.0]);
+        req.kt_start = pick(rng, &[0., 0.5, 5.]);
+        let desc = format!("#{} special-position {} lj circle", k, gname);
+        chain(&desc, gname, st2, &[req], &mut runs);
+    }
+    runs
+}
+
 pub fn seeded(seed: u64, stream: u64) -> Pcg64Mcg {
     Pcg64Mcg::seed_from_u64(seed.wrapping_mul(0x9E37_79B9_7F4A_7C15).wrapping_add(stream))
 }
